@@ -80,7 +80,20 @@ impl Prop for C01 {
                 return out;
             }
         };
-        let ex = expect(&c.kind, &c.special);
+        let vocab = match tok.get_vocab() {
+            Ok(v) => v,
+            Err(e) => {
+                out.fail(format!("get_vocab failed: {e}"));
+                return out;
+            }
+        };
+        let ex = match expect(&c.kind, &c.special, &vocab) {
+            Ok(e) => e,
+            Err(e) => {
+                out.fail(e);
+                return out;
+            }
+        };
         let nreg = ex.regular.len();
         let sid = |t: &str| -> u32 { (nreg + ex.special.iter().position(|u| u == t).expect("special")) as u32 };
         let pre: Vec<u32> = c.special.prefix.iter().map(|t| sid(t)).collect();
@@ -167,12 +180,12 @@ impl Prop for C01 {
                         Ok(t) => {
                             for cl in gen::clusters(t, *graphemes) {
                                 let mut it = cl.chars();
-                                let first = it.next().unwrap();
+                                let _first = it.next().unwrap();
                                 if it.next().is_some() {
                                     out.label("multi_cp_cluster");
                                     want.push(unk_id);
                                     over_alphabet = false;
-                                } else if (' '..='~').contains(&first) {
+                                } else if ex.regular.iter().any(|t| t.as_slice() == cl.as_bytes()) {
                                     match tok.token_to_id(cl) {
                                         Some(id) if (id as usize) < nreg => want.push(id),
                                         other => {
